@@ -1,16 +1,34 @@
 """C07 - unique identifiers are never reused; a destroyed identifier stays dead."""
-from .. import common, engcheck as E
+from .. import common, tlc, engcheck as E
 
 ONLY = {"C07"}
 
 
+def unbounded_allocator(run):
+    """The allocator without bounds: Apalache checks IndInv of spec/apalache/UidAlloc.tla as an inductive invariant (base case
+    from Init, step from an arbitrary state satisfying IndInv), so 'no identifier is handed out twice' holds for any number of
+    objects and any history of creates, destroys, restarts and crashes in creation; negative control: without AUTOINCREMENT
+    (next = largest live + 1) the step fails."""
+    base, t1 = tlc.apalache("UidAlloc", {"AUTOINC": "TRUE"}, "Init", "IndInv", 0)
+    step, t2 = tlc.apalache("UidAlloc", {"AUTOINC": "TRUE"}, "IndInit", "IndInv", 1)
+    neg, t3 = tlc.apalache("UidAlloc", {"AUTOINC": "FALSE"}, "IndInit", "IndInv", 1)
+    if base != "NoError" or step != "NoError":
+        raise common.MachineryFailure("UidAlloc.tla: the inductive invariant does not hold (base %s, step %s)" % (base, step))
+    if neg != "Error":
+        raise common.MachineryFailure("UidAlloc.tla: the negative control (no AUTOINCREMENT) is not refuted")
+    run.extra["apalache_inductive_invariant"] = {"module": "spec/apalache/UidAlloc.tla", "base_case": base, "inductive_step": step,
+                                                 "negative_control_without_autoincrement": neg, "seconds": [t1, t2, t3]}
+
+
 def check(run, tier):
     quick = tier == "quick"
-    run.rule = ("leg A: TLC, all histories of MC_C07 (Create, Register x2, CreateKeyPair, Destroy by two users, reads of live / "
+    run.rule = ("leg A0: Apalache, unbounded: IndInv of UidAlloc.tla (high-water mark >= every identifier ever issued, never "
+                "reused) as an inductive invariant, with the no-AUTOINCREMENT negative control; leg A: TLC, all histories of MC_C07 (Create, Register x2, CreateKeyPair, Destroy by two users, reads of live / "
                 "dead / unused identifiers, Locate, restarts) to the stated depth and identifier bound; leg B: every model "
                 "transition executed on the real engine (restarts are real engine restarts on the same file); leg C: seeded "
                 "random multi-client histories with restarts, validated by TraceEngine.tla with the ghost sets issued/dead. "
                 "distinct = distinct (operation, object type, state, status, reason) tuples on the real engine.")
+    unbounded_allocator(run)
     E.model_check(run, "MC_C07", "MenuC07", "CheckedC07", 5 if quick else 6, 4 if quick else 5)
     edges = E.emit_edges(run, "MC_C07", "MenuC07", 4 if quick else 5, 4)
     traces = E.replay_edges(run, edges)
